@@ -128,9 +128,10 @@ def render_vbox(body, rng, style):
     for k, d in enumerate(disks, 1):
         loc = f"disk {k} ü.vdi" if d["format"].lower() == "vdi" else f"disk{k}.{d['format'].lower()}"
         locs[k] = loc
-        attrs = f'uuid="{{0000000{k}-0000-0000-0000-000000000000}}" ' + (f'location="{loc}" ' if d["loc"] else "") + f'format="{d["format"]}" type="{d["type"]}"'
+        typ = f' type="{d["type"]}"' if d["type"] != "absent" else ""
+        attrs = f'uuid="{{0000000{k}-0000-0000-0000-000000000000}}" ' + (f'location="{loc}" ' if d["loc"] else "") + f'format="{d["format"]}"{typ}'
         if style.get("attr_order"):
-            attrs = f'type="{d["type"]}" format="{d["format"]}" ' + (f'location="{loc}" ' if d["loc"] else "") + f'uuid="{{0000000{k}-0000-0000-0000-000000000000}}"'
+            attrs = typ.strip() + f' format="{d["format"]}" ' + (f'location="{loc}" ' if d["loc"] else "") + f'uuid="{{0000000{k}-0000-0000-0000-000000000000}}"'
         if d["nested"] and depth < 3 and k > 1:
             # nest inside the previous disk: re-open it
             out.insert(len(out) - 1 if out[-1].startswith("</HardDisk>") else len(out), None)
@@ -308,7 +309,7 @@ def random_configs(ctx, rng, n):
                 inv = {v: k for k, v in href.items()}
                 conv = lambda l: [inv[g] for g in l]  # noqa: E731
             elif kind == "vbox":
-                body = [{"format": rng.choice(["VDI", "vdi", "Vdi", "VMDK", "VHD"]), "type": rng.choice(["Normal", "Normal", "Immutable", "Writethrough"]),
+                body = [{"format": rng.choice(["VDI", "vdi", "Vdi", "VMDK", "VHD"]), "type": rng.choice(["Normal", "Normal", "Immutable", "Writethrough", "absent"]),
                          "loc": rng.random() < 0.85, "nested": rng.random() < 0.4} for _ in range(rng.randrange(0, 8))]
                 hist = []
                 got, locs, _ = observe("vbox", body, rng, rng.choice([{}, {"attr_order": True}]), hist)
